@@ -39,11 +39,11 @@ def build(flavours):
 
 SLOW_UNWIND = [False]   # C18 needs complete allocation stacks through libgmp (no frame pointers there); costs ~5x
 
-def san_env(tag):
+def san_env(tag, slow=None):
     os.makedirs(LOGDIR, exist_ok=True)
     env = dict(os.environ)
     lp = os.path.join(LOGDIR, tag)
-    unwind = "fast_unwind_on_malloc=0:malloc_context_size=14" if SLOW_UNWIND[0] else "fast_unwind_on_malloc=1:malloc_context_size=6"
+    unwind = "fast_unwind_on_malloc=0:malloc_context_size=14" if (SLOW_UNWIND[0] if slow is None else slow) else "fast_unwind_on_malloc=1:malloc_context_size=6"
     env["ASAN_OPTIONS"] = "log_path=%s:exitcode=77:detect_leaks=1:leak_check_at_exit=0:allocator_may_return_null=1:handle_sigfpe=1:symbolize=1:%s" % (lp, unwind)
     env["UBSAN_OPTIONS"] = "log_path=%s:print_stacktrace=1:halt_on_error=1:exitcode=77" % lp
     env["LSAN_OPTIONS"] = "log_path=%s:print_suppressions=0" % lp
@@ -88,7 +88,7 @@ def crash_class(san_text, exit_code, opkind):
         kind = "ubsan:" + re.sub(r"[0-9]+", "#", m2.group(1)).strip().replace(" ", "_")[:40]
     elif exit_code is not None and exit_code < 0:
         kind = "signal%d" % (-exit_code)
-    frames = lib_frames(san_text, 2)
+    frames = lib_frames(san_text, 1)   # innermost library frame only: deeper frames vary with what an overflow happens to find
     return "crash:%s:%s:%s" % (kind, opkind or "?", "/".join(frames) if frames else "?")
 
 def leak_classes(leak_text):
@@ -174,12 +174,12 @@ def emit_plan(flavour, profile, seed, opts):
     r = subprocess.run(args, stdout=subprocess.PIPE, stderr=subprocess.DEVNULL, cwd=BUILD)
     return r.stdout.decode()
 
-def replay_once(flavour, plan_text, trace=False, timeout=120, tag="replay"):
+def replay_once(flavour, plan_text, trace=False, timeout=120, tag="replay", slow=None):
     """fresh process; returns (result dict or None, crash info or None, trace lines)"""
     os.makedirs(LOGDIR, exist_ok=True)
     path = os.path.join(LOGDIR, "%s-%d-%d.plan" % (tag, os.getpid(), threading.get_ident()))
     open(path, "w").write(plan_text)
-    env, lp = san_env("%s%d_%d" % (tag, os.getpid(), threading.get_ident()))
+    env, lp = san_env("%s%d_%d" % (tag, os.getpid(), threading.get_ident()), slow)
     args = [qsim(flavour), "--replay", path] + (["--trace"] if trace else [])
     try:
         p = subprocess.Popen(args, stdout=subprocess.PIPE, stderr=subprocess.DEVNULL, env=env, cwd=BUILD)
@@ -200,6 +200,8 @@ def replay_once(flavour, plan_text, trace=False, timeout=120, tag="replay"):
         san = read_san_logs(lp, p.pid)
         if res is None:
             return None, {"kind": "crash", "exit": p.returncode, "san": san}, lines
+        if res.get("leak") and "leak of" not in res["leak"] and san:
+            res["leak"] = san
         return res, None, lines
     finally:
         try:
@@ -487,7 +489,7 @@ def check(prop, tier):
     base_seed = int(os.environ.get("VERIF_SEED", "1"))
     budget = float(os.environ.get("VERIF_BUDGET_S", spec.get("quick_s", 40) if tier == "quick" else spec.get("thorough_s", 900)))
     arms = spec["arms"]                      # list of dict(profile, faults, flavour, weight, opts)
-    SLOW_UNWIND[0] = bool(spec.get("slow_unwind"))
+    SLOW_UNWIND[0] = False
     flavours = sorted({a["flavour"] for a in arms} | set(spec.get("twin_flavours", [])))
     build(flavours)
     findings = load_findings()
@@ -557,11 +559,16 @@ def check(prop, tier):
                     a = arm_of(i)
                 seed, opts, cmd = job_cmd(i, a)
                 res, crash = w.run(cmd, spec.get("run_timeout_s", 120))
-                if res and res.get("leak") and "leak of" not in res["leak"]:
-                    # with log_path set LeakSanitizer writes its report to the worker's log file, not to the captured fd 2
-                    txt = read_san_logs(w.logprefix, w.proc.pid)
-                    if txt:
-                        res["leak"] = txt
+                if res and res.get("leak"):
+                    # LeakSanitizer wrote its report to the worker's log file; the workers unwind fast (frame pointers), which
+                    # cannot walk through libgmp, so the plan is re-executed once with the slow unwinder for complete stacks
+                    read_san_logs(w.logprefix, w.proc.pid)
+                    r2, c2, _ = replay_once(fl, emit_plan(fl, a["profile"], seed, opts), tag="leakstack", slow=True, timeout=600)
+                    if r2 is not None and r2.get("leak"):
+                        res["leak"] = r2["leak"]
+                    elif r2 is not None:
+                        res["leak"] = ""   # did not reproduce in a fresh process: reported below as harness nondeterminism
+                        res["harness_error"] = "leak reported in the worker did not reproduce in a fresh process"
                 plan_text = None
                 viols = []
                 own = crash is not None or (res and (res.get("leak") or res.get("harness_error") or any(v["prop"] == prop for v in res.get("violations", []))))
